@@ -9,7 +9,7 @@ G3  mark and sweep are entered only from the collector driver, and the driver
 Both build configurations (compiler and -DFOAM_RTS runtime).
 """
 from . import common
-from .common import AnalysisBroken, strip, walk, calls, const_value
+from .common import AnalysisBroken, strip, walk, calls, const_value, render
 
 EXPLANATION = (
     "In store.c, for the compiler and the -DFOAM_RTS configuration: G1 on the CFG of stoGcMarkAndSweep every path to the call "
@@ -211,6 +211,61 @@ def g5(rep):
     rep.floor("frees of storage reachable from an interpreter global", n, 1)
 
 
+def g6(rep, config):
+    """The marker descends into the object referenced by the last word of a range by iteration (goto TailRecursion), so that a
+    list linked through its last field costs no C stack.  The branch is taken when the cursor equals the last pointer slot.  A
+    byte-granular bound (ptrOff(hi, 1 - sizeof(char *)), used with < to stop the scan) is never equal to an aligned cursor:
+    compared with ==, the iteration is dead and marking recurses once per cell until the C stack overflows."""
+    f = common.extract("store.c", config, trees=["stoGcMarkRange"])
+    fn = f.func("stoGcMarkRange")
+    par = common.parents(fn["body"])
+    tag = "" if config == "compiler" else " [runtime]"
+    align = 8
+    unaligned = {}
+    for x in walk(fn["body"]):
+        if x["k"] == "BinaryOperator" and x["op"] == "=" and (strip(x["c"][0]) or {}).get("k") == "DeclRefExpr":
+            offs = [y["cv"] for y in walk(x["c"][1]) if y["k"] == "BinaryOperator" and y["op"] == "+" and
+                    "char" in (y.get("t") or "") and len(y["c"]) == 2 and (strip(y["c"][1]) or {}).get("cv") is not None
+                    for y in [strip(y["c"][1])]]
+            if offs and any(o % align for o in offs):
+                unaligned[strip(x["c"][0])["n"]] = x["l"]
+    gotos = [x for x in walk(fn["body"]) if x["k"] == "GotoStmt" and x.get("n") == "TailRecursion"]
+    if len(gotos) != 1:
+        raise AnalysisBroken("stoGcMarkRange: expected one `goto TailRecursion` (found %d)" % len(gotos))
+    if not unaligned:
+        raise AnalysisBroken("stoGcMarkRange: the byte-granular scan bound (ptrOff(hi, 1 - sizeof(char *))) was not recognised")
+    cur, cond = gotos[0], None
+    while cur["id"] in par and cond is None:
+        p_ = par[cur["id"]]
+        if p_["k"] == "IfStmt" and any(y is cur for y in walk(p_["c"][1])):
+            cond = p_["c"][0]
+        cur = p_
+    if cond is None:
+        raise AnalysisBroken("stoGcMarkRange: `goto TailRecursion` is not under an if")
+    eqs = [y for y in walk(cond) if y["k"] == "BinaryOperator" and y["op"] == "=="]
+    if len(eqs) != 1:
+        raise AnalysisBroken("stoGcMarkRange: the tail-iteration test is not one equality")
+    names = [y["n"] for y in walk(eqs[0]) if y["k"] == "DeclRefExpr"]
+    where = "store.c:%d (stoGcMarkRange)%s" % (eqs[0]["l"], tag)
+    key = "tail-iteration-live" + tag
+    hit = [n for n in names if n in unaligned]
+    if hit:
+        rep.violation("G6", key, where, "the tail-iteration test compares the scan cursor for equality with '%s', a byte-granular bound "
+                      "(defined at line %d with an offset that is not a multiple of the pointer size): the test is never true, "
+                      "every descent is a C recursion, and a long list linked through its last field overflows the C stack during "
+                      "a collection" % (hit[0], unaligned[hit[0]]))
+        return
+    # the accepted form: cursor == hi - 1 in pointer units
+    other = [strip(c) for c in eqs[0]["c"]]
+    last = [y for o in other for y in walk(o) if y["k"] == "BinaryOperator" and y["op"] == "-" and
+            (strip(y["c"][1]) or {}).get("cv", const_value(y["c"][1])) == 1 and "*" in (y.get("t") or "")]
+    if last:
+        rep.ok("G6", key, sample={"test": render(eqs[0])[:80]})
+    else:
+        raise AnalysisBroken("stoGcMarkRange: the tail-iteration test `%s` is neither `cursor == hi - 1` nor a comparison with the "
+                             "byte-granular bound; re-read" % render(eqs[0])[:80])
+
+
 def run(tier, only=None):
     rep = common.Report("C09", tier, EXPLANATION)
     check_config(rep, "compiler", common.compiler_units())
@@ -221,5 +276,7 @@ def run(tier, only=None):
     for config in ("compiler", "runtime"):
         c10_store_tables.check_carving(rep, config, rule="G4")
     g5(rep)
+    for config in ("compiler", "runtime"):
+        g6(rep, config)
     rep.assumptions.append("setjmp stores the callee-saved registers in its buffer (the idiom the collector relies on)")
     return rep
